@@ -93,3 +93,17 @@ reg("C19", "model_checking",
     "and each not-found answer for absent tuples; outputs with and without -t explain must equal the model.",
     "Programs come from a seeded generator restricted to the provenance fragment (atoms, negation, constraints, functors, eqrel, facts, recursion; no aggregates/range/records/ADTs); cited rules are the printed post-transformation rules, "
     "additionally checked sound against the source program's model. Trusted: TLC, the parser of explain's printed rules (syntax only).", "DESIGN.md 9 C19")
+reg("C17", "model_checking",
+    "TLA+ transducer specification spec/CsvIO.tla (writer, reader, representability of souffle's text formats, record/ADT syntax) model-checked by TLC over an adversarial tuple space (theorem Representable and not KnownGap <=> Read(Write(t)) = t); every vector is replayed into the real writer (program-text facts), file bytes compared with the specification's text, and read back by the real reader with the loaded relation compared inside Datalog",
+    "TLC enumerates (format, relation shape, tuple) vectors over an adversarial alphabet (quotes, delimiters, brackets, backslash, newline, tab), extreme numbers, dyadic floats, nested/nil records and ADTs for 15 format/option combinations "
+    "(tab, custom and multi-character delimiters, rfc4180, headers, gzip, JSON, SQLite), proves the round-trip theorem on the spec, and every representable tuple must round-trip through the real writer and reader; "
+    "unrepresentable tuples are only observed (loud failure or correct round trip expected, silent differences counted).",
+    "Interpreter IO only; JSON/SQLite judged as channels (round trip only); floats limited to dyadic values with <=9-digit decimals plus inf/nan tokens; carriage return and non-ASCII bytes not in the alphabet. Trusted: TLC, the glue that renders facts and compares inside Datalog.",
+    "DESIGN.md 9 C17")
+reg("C18", "model_checking",
+    "TLA+ acceptance-language specification spec/NumParse.tla + spec/CsvIO.tla (digit-wise 32-bit range tests, classes accept/reject/either, record/ADT grammar, line splitting) evaluated by TLC over all short strings and boundary templates with one-character mutations per column type and text format; every fact file and token-shaped program constant is given to the real loader/compiler",
+    "TLC classifies every string of length <=3 (thorough <=4) over {+,-,0,1,9,x,b,a,.,e,blank} plus about 40 boundary templates (2^31, 2^32, hex/binary, 1e39, nan, inf, unbalanced quotes/brackets) with delete/insert/substitute mutations, "
+    "for number, unsigned, float, symbol, record and ADT columns in tab, comma and rfc4180 files and as program-text constants: must-accept vectors must load exactly the specified value (compared inside Datalog against canonical constants), "
+    "must-reject vectors must exit 1 naming file and line, don't-care vectors must do one of the two; crashes, aborts, hangs and silently different values are violations.",
+    "Don't-care classes (leading blanks, leading +, -0 in unsigned, hex/binary prefixes in number columns, '5.', '.5', subnormals) are stated in spec/NumParse.tla. Float rounding is checked with exact rational arithmetic in the glue (TLC has no floats). Trusted: TLC, glue rendering.",
+    "DESIGN.md 9 C18")
